@@ -44,6 +44,12 @@ class Table:
                 return point[("val", e[1])]
             if e[0] in ("cast",):
                 return self.value(e[2], point, call_eval)
+            if e[0] == "chk":
+                return self.value(e[1], point, call_eval)
+            if e[0] == "bin" and e[1] in ("Eq", "Ne", "Lt", "Le", "Gt", "Ge", "Add", "Sub"):
+                a = self.value(e[2], point, call_eval)
+                b = self.value(e[3], point, call_eval)
+                return int({"Eq": a == b, "Ne": a != b, "Lt": a < b, "Le": a <= b, "Gt": a > b, "Ge": a >= b, "Add": a + b, "Sub": a - b}[e[1]])
             if e[0] == "deref":
                 return self.value(e[1], point, call_eval)
             if e[0] == "call" and call_eval is not None:
